@@ -1203,6 +1203,10 @@ func (fr *Frame) applyContract(sp *FuncSpec, name string, sig *types.Signature, 
 	}
 	env.st = fr.cur.st
 	for _, c := range sp.Ensures {
+		if strings.Contains(c.Src, "lastresult(") {
+			// talks about calls inside the callee: meaningful only when the callee itself is verified
+			continue
+		}
 		t, err := env.Bool(c.Expr)
 		if err != nil {
 			e.unsupported = append(e.unsupported, fmt.Sprintf("%s: ensures of %s (%s:%d): %v", fr.prefix, short, c.File, c.Line, err))
